@@ -37,21 +37,10 @@ def region_of_meta(meta, tag):
         if form in ("extind+1",):
             return "C3"
         return None
-    if form == "npcr":
-        return "A9"
-    if form == "list":
-        regs = meta.get("regs", [])
-        if "S" in regs or "U" in regs:
-            return "A10"
-        return None
     return None
 
 
-SHAPES = [
-    (re.compile(r"^\[?[^,\[\]]*,PCR\]?$"), "A9"),
-    (re.compile(r"^\[?[^,\[\]]*,[^,\[\]]*\]?$"), "A10"),      # n,R / ,R forms: register detection by substring
-    (re.compile(r","), "A10"),                               # register lists
-]
+SHAPES = []
 
 
 def region_of_text(opnd):
@@ -171,7 +160,7 @@ def run_c12(run, thorough=False):
                 same = fam_asm_key({"lines": c["lines"], "files": None}) not in disagree_keys
                 run.dist["c12.any.violation.register"] += 1
                 run.violate("C12: an unknown or inapplicable register is accepted", {"lines": c["lines"], "statement": "%s %s" % (st["mn"], st["opnd"])},
-                            "diag", {"register": bad, "bytes": st["bytes"]}, known_id="A10" if same else None)
+                            "diag", {"register": bad, "bytes": st["bytes"]})
             continue
         rid = region_of_text(st["opnd"] or "")
         same = fam_asm_key({"lines": c["lines"], "files": None}) not in disagree_keys
@@ -426,10 +415,6 @@ def region_c04(meta, val):
     pos = meta["pos"]
     if pos == "equ":
         return "C4"                      # EQU of an expression is not evaluated
-    if pos == "pcr":
-        return "A9"
-    if (pos == "mem" and val is not None and val < 0) or meta.get("a", 0) < 0:
-        return "A13"                     # negative EQU constants / negative expression results lose their sign
     return None
 
 
